@@ -28,7 +28,8 @@ pub fn insert_keyword_statement_terminators(input: Vec<Token>, _file_id: &FileId
                 col: tok.col,
                 text: "".to_owned(),
             });
-            in_end_statement = false;
+            // The token that ends the wait may itself be END_IF (nested IF statements)
+            in_end_statement = tok.token_type == TokenType::EndIf;
         }
 
         output.push(tok);
